@@ -10,7 +10,7 @@ ASSUMPTIONS = ["'consistent with the complete document' is decided by props/C19_
 
 def run(ctx):
     C19_text.run_text(ctx)
-    for name in ("C19_bin", "C19_de"):
+    for name in ("C19_bin", "C19_de", "C19_lex"):
         try:
             m = __import__("props." + name, fromlist=["x"])
         except ImportError:
